@@ -259,7 +259,7 @@ func VerifCrash(kv map[string]string) string {
 			vsr := &conf_v1.VirtualServerRoute{ObjectMeta: meta("r1")}
 			verifFill(reflect.ValueOf(&vsr.Spec).Elem(), "Spec", r, 0)
 			verifRepairVSR(vsr, vs.Spec.Host, "/sub", r)
-			vs.Spec.Routes = append(vs.Spec.Routes, conf_v1.Route{Path: "/sub", Route: "d/r1"})
+			vs.Spec.Routes = append(vs.Spec.Routes, conf_v1.Route{Path: verifRefPath(vsr, r), Route: "d/r1"})
 			objs = append(objs, vsr)
 		}
 	case "vsr":
@@ -271,7 +271,7 @@ func VerifCrash(kv map[string]string) string {
 			v := verifLbcVS("x0", "s1", 0, nil)
 			v.Spec.Host = "v9x.ex"
 			vsr.Spec.Host = "v9x.ex"
-			v.Spec.Routes = append(v.Spec.Routes, conf_v1.Route{Path: "/sub", Route: "d/r1"})
+			v.Spec.Routes = append(v.Spec.Routes, conf_v1.Route{Path: verifRefPath(vsr, r), Route: "d/r1"})
 			return v
 		}())
 	case "ts":
@@ -409,4 +409,20 @@ func verifIngShape(ing *networking.Ingress) string {
 		}
 	}
 	return c + ";" + m + ";t" + strconv.Itoa(len(ing.Spec.TLS)) + ";d" + d + ";" + strings.Join(rules, ",")
+}
+
+// verifRefPath picks the path under which a VirtualServer route delegates to vsr: mostly the prefix "/sub"; one time in three an
+// exact or regex path, for which the route must have exactly one subroute with that very path — half of the time the route's
+// subroutes are left as they are (none, one, several; the reference is then invalid and must be reported, not crash), otherwise
+// its first subroute is given the path.
+func verifRefPath(vsr *conf_v1.VirtualServerRoute, r *verifRng) string {
+	if r.below(3) != 0 {
+		return "/sub"
+	}
+	p := []string{"=/sub/e", "~ ^/sub/r"}[r.below(2)]
+	if r.below(2) == 0 && len(vsr.Spec.Subroutes) > 0 {
+		vsr.Spec.Subroutes = vsr.Spec.Subroutes[:1]
+		vsr.Spec.Subroutes[0].Path = p
+	}
+	return p
 }
